@@ -344,6 +344,8 @@ def native_flag_table(run, tier):
     seen_ops = {}
     picked = []
     for c in cases:
+        if c.key.get("layer_reused_before_backward"):
+            continue            # auxiliary operands that do not feed the result: "any operand requires grad" is not the rule for these programs
         k = (c.name, len(c.leaves))
         if seen_ops.get(k, 0) < (2 if tier == "quick" else 6):
             seen_ops[k] = seen_ops.get(k, 0) + 1
